@@ -45,9 +45,12 @@ Conform(ok, what) ==
   /\ (~ok => /\ TLCSet(DriftIdx, TLCGet(DriftIdx) + 1)
              /\ (TLCGet(DriftIdx) <= 3 => PrintT(<<"DRIFT", what>>)))
 
-Init == /\ li \in {i \in 1..NL: Hdr[i].first # 0 /\ (Replay = <<>> \/ Replay[1].li = i)}
+\* a layout whose Mapper::for_layout panicked has no table (first = 0): an initial state without
+\* successors, judged by C14
+Init == /\ li \in {i \in 1..NL: (Hdr[i].first # 0 \/ (Hdr[i].panic # "" /\ "C14" \in Props)) /\ (Replay = <<>> \/ Replay[1].li = i)}
         /\ sid = Hdr[li].first
-        /\ phys = {} /\ out = {} /\ mon = MP!InitMon /\ viol = {}
+        /\ phys = {} /\ out = {} /\ mon = MP!InitMon
+        /\ viol = (IF Hdr[li].first = 0 THEN {"C14-panic-for_layout"} ELSE {})
         /\ last = [t |-> "-", k |-> ""] /\ pos = 1
         /\ \A i \in 1..(Len(Tags) + 2): TLCSet(i, 0)
 
@@ -115,7 +118,7 @@ Scripted ==
   /\ LET e == Replay[1].history[pos] IN IF e.t = "RA" THEN DoReleaseAll ELSE Do(e)
 
 \* a violating state is terminal (the counterexample ends at the first offence)
-Next == viol = {} /\ (IF Replay = <<>> THEN Free ELSE Scripted)
+Next == viol = {} /\ sid # 0 /\ (IF Replay = <<>> THEN Free ELSE Scripted)
 
 Spec == Init /\ [][Next]_vars
 
